@@ -108,8 +108,54 @@ def default_cases(O, pid, n_quick=300, n_thorough=4000, cfg_fn=F.config_variants
     cases += F.generated_cases(O.seed, n, tag or pid.lower(), cfg_fn=cfg_fn, opts=opts, **genkw)
     cases += catalogue_cases(O.seed, n if O.tier == "quick" else 2 * n, tag or pid.lower(), cfg_fn=cfg_fn, opts=opts)
     cases += wide_cases(opts)
+    cases += feature_mix_cases(opts)
+    cases += receiver_table_cases(opts)
     cases += finding_cases(pid, opts)
     return cases
+
+
+def receiver_table_cases(opts=None):
+    """Every receiver form of the catalogue with a method that is allowed on a literal receiver and with one that is not
+    (deterministic: which receiver kinds are instrumented, and with which value, must not depend on sampling)."""
+    import catalogue
+    out = []
+    args = ["a", "'lit'", "a, b", ""]
+    for ri, recv in enumerate(catalogue.RECEIVERS):
+        if recv.startswith("super"):
+            continue
+        r = "(" + recv + ")" if recv[0].isdigit() else recv
+        for mi, meth in enumerate(["concat", "replace", "padStart", "trim", "substring"]):
+            code = "function f(a,b,o,k,r,q,x,y,z,i,arr){ return %s.%s(%s); }" % (r, meth, args[(ri + mi) % len(args)])
+            out.append({"id": "recv-%d-%s" % (ri, meth), "config": vlib.default_config(), "calls": [{"code": code, "file": "recv.js"}], "opts": dict(opts or {})})
+    return out
+
+
+def feature_mix_cases(opts=None):
+    """Programs that nest one instrumentable operation inside another, under every subset of the three features (a nested operation
+    of a feature that is OFF stays in place inside an operand of a feature that is ON), and files whose first block only gets a
+    null guard (no hook) before a block that is instrumented -- in both orders."""
+    M = [{"src": "trim", "dst": "stringTrim"}, {"src": "concat", "dst": "stringConcat"}, {"src": "substring", "dst": "stringSubstring"}]
+    PLUS, TPL = {"src": "plusOperator", "operator": True}, {"src": "tplOperator", "operator": True}
+    subsets = {"plus": [PLUS], "tpl": [TPL], "methods": M, "plus+methods": [PLUS] + M, "tpl+methods": [TPL] + M, "plus+tpl": [PLUS, TPL], "all": [PLUS, TPL] + M}
+    progs = ["{ const r = x + `<${a + b}>`; }", "{ const s = 'n'; const r = s.trim(`${a.trim()}`) + 1; }", "{ r += `${a + b}`; }", "{ r = `${x + y}`.concat(`${a.trim()}`); }",
+             "{ r = a.concat(b + c, `${d + e}`); }", "{ r = `${a.concat(b + c)}` + d.trim(); }", "{ r = (a + b).trim() + `${c}`; }", "{ r = `${`${a + b}`.trim()}`; }",
+             "{ r = x.substring(a + b, `${c}`.length); }", "{ o[`${a + b}`] += c.trim(); }", "{ r = f(`${a}` + b.trim()).concat(`${c + d}`); }"]
+    guard_only = ["function f1(a) { 'use strict'; return a?.prototype.concat('x') }", "function f1(a) { return a?.prototype.trim() }", "const f1 = (a) => { return a?.b.prototype.substring(1) };",
+                  "function f1(a) { { let q = a?.prototype.concat('x', 'y'); } }"]
+    instrumented = ["function g1(a, b) { return a + b }", "function g1(a) { return a.trim() }", "function g1(a) { { return `${a}` } }"]
+    out = []
+    for name, methods in subsets.items():
+        for j, code in enumerate(progs):
+            for v in ("DEBUG", "INFORMATION"):
+                out.append({"id": "mix-%s-%d-%s" % (name, j, v), "config": vlib.default_config(csiMethods=[dict(m) for m in methods], telemetryVerbosity=v),
+                            "calls": [{"code": code, "file": "mix.js"}], "opts": dict(opts or {})})
+    k = 0
+    for g in guard_only:
+        for i in instrumented:
+            for order in ((g, i), (i, g), (g, g, i)):
+                k += 1
+                out.append({"id": "guardfirst-%d" % k, "config": vlib.default_config(), "calls": [{"code": "\n".join(order) + "\n", "file": "gf.js"}], "opts": dict(opts or {})})
+    return out
 
 
 def wide_cases(opts=None):
